@@ -109,22 +109,22 @@ func genBase58(g *core.Gen) {
 			for z := 0; z < r.Intn(4) && z < n; z++ {
 				b[z] = 0
 			}
-			g.Case("b58e", n > 0, "C16 b58e "+hx(b))
+			gc(g, "b58e", n > 0, "C16 b58e "+hx(b))
 		}
-		g.Case("b58e-zero", n > 0, "C16 b58e "+hx(make([]byte, n)))
+		gc(g, "b58e-zero", n > 0, "C16 b58e "+hx(make([]byte, n)))
 		ff := make([]byte, n)
 		for i := range ff {
 			ff[i] = 0xff
 		}
-		g.Case("b58e-ff", n > 0, "C16 b58e "+hx(ff))
+		gc(g, "b58e-ff", n > 0, "C16 b58e "+hx(ff))
 	}
 	// values around 58^k (digit-count boundaries; 58^10 is the chunk size of the Go loops)
 	for k := 1; k <= 24; k++ {
 		v := pow58(k)
 		for d := -2; d <= 2; d++ {
 			w := addSmall(v, d)
-			g.Case("b58e-pow", true, "C16 b58e "+hx(w))
-			g.Case("b58e-pow", true, "C16 b58e 00"+hex.EncodeToString(w))
+			gc(g, "b58e-pow", true, "C16 b58e "+hx(w))
+			gc(g, "b58e-pow", true, "C16 b58e 00"+hex.EncodeToString(w))
 		}
 	}
 	// decode: valid strings of every length 0..60 (leading '1's), invalid characters
@@ -134,25 +134,25 @@ func genBase58(g *core.Gen) {
 			for z := 0; z < r.Intn(4) && z < n; z++ {
 				s[z] = '1'
 			}
-			g.Case("b58d", n > 0, "C16 b58d "+hx(s))
+			gc(g, "b58d", n > 0, "C16 b58d "+hx(s))
 		}
 		ones := []byte(strings.Repeat("1", n))
-		g.Case("b58d-ones", n > 0, "C16 b58d "+hx(ones))
+		gc(g, "b58d-ones", n > 0, "C16 b58d "+hx(ones))
 		zs := []byte(strings.Repeat("z", n))
-		g.Case("b58d-z", n > 0, "C16 b58d "+hx(zs))
+		gc(g, "b58d-z", n > 0, "C16 b58d "+hx(zs))
 	}
 	for c := 0; c < 256; c++ { // every byte value at a random position of a valid string
 		s := randB58(r, 1+r.Intn(30))
 		s[r.Intn(len(s))] = byte(c)
-		g.Case("b58d-anybyte", true, "C16 b58d "+hx(s))
-		g.Case("b58d-anybyte", true, "C16 b58d "+hx([]byte{byte(c)}))
+		gc(g, "b58d-anybyte", true, "C16 b58d "+hx(s))
+		gc(g, "b58d-anybyte", true, "C16 b58d "+hx([]byte{byte(c)}))
 	}
 	for k := 0; k < g.N(100, 2000); k++ { // multi-byte UTF-8 / invalid UTF-8 inside, also at chunk cuts
 		s := randB58(r, 5+r.Intn(30))
 		p := r.Intn(len(s))
 		ins := [][]byte{{0xc3, 0xa9}, {0xe2, 0x82, 0xac}, {0xff}, {0xc3}, {0xf0, 0x9f, 0x98, 0x80}, {0x80}}[r.Intn(6)]
 		s = append(s[:p], append(append([]byte{}, ins...), s[p:]...)...)
-		g.Case("b58d-utf8", true, "C16 b58d "+hx(s))
+		gc(g, "b58d-utf8", true, "C16 b58d "+hx(s))
 	}
 	// check-encode / check-decode
 	for k := 0; k < g.N(300, 5000); k++ {
@@ -168,19 +168,19 @@ func genBase58(g *core.Gen) {
 		if r.Chance(1, 3) {
 			v = 0
 		}
-		g.Case("chke", true, "C16 chke "+hx([]byte{v})+" "+hx(p))
+		gc(g, "chke", true, "C16 chke "+hx([]byte{v})+" "+hx(p))
 		s := []byte(base58.CheckEncode(p, v))
-		g.Case("chkd-valid", true, "C16 chkd "+hx(s))
-		g.Case("chkd-mut", true, "C16 chkd "+hx(mutate(r, s, 1+r.Intn(4), b58alpha)))
+		gc(g, "chkd-valid", true, "C16 chkd "+hx(s))
+		gc(g, "chkd-mut", true, "C16 chkd "+hx(mutate(r, s, 1+r.Intn(4), b58alpha)))
 	}
 	// short decodings: < 5 bytes, exactly 5 bytes
 	for n := 0; n <= 6; n++ {
 		for k := 0; k < 6; k++ {
 			b := r.Bytes(n)
-			g.Case("chkd-short", true, "C16 chkd "+hx([]byte(base58.Encode(b))))
+			gc(g, "chkd-short", true, "C16 chkd "+hx([]byte(base58.Encode(b))))
 		}
 	}
-	g.Case("chkd-short", true, "C16 chkd "+hx([]byte(base58.CheckEncode(nil, 0))))
+	gc(g, "chkd-short", true, "C16 chkd "+hx([]byte(base58.CheckEncode(nil, 0))))
 }
 
 func pow58(k int) []byte {
